@@ -296,6 +296,28 @@ def check_ccf_stores(ctx, entry, I, res, rule='R7'):
             ctx.ok(rule, '%s store(current_chunk_footer) via %s' % (fn, entry), 'stored value contains the address of the footer written by the acquirer in the same call')
         else:
             ctx.violation(rule, fn, 'store(Bump.current_chunk_footer)', 'current_chunk_footer is set to %s, which is not a footer created in this call' % show(e.val)[:160], e.span)
+        # ... and the new head is linked in front of the old one: through a shared borrow the list only grows at its head. A fresh
+        # chunk whose `prev` is anything but the head it replaces (the sentinel for "this chunk was unused anyway", an older
+        # chunk) cuts chunks the arena still holds out of the list: never counted, never iterated, never freed
+        if okv and not creator_or_exclusive(I, e):
+            ei = res.events.index(e)
+            fa = [arena.footer_agg(x) for x in res.events[:ei] if x.kind == 'store' and arena.footer_agg(x)]
+            for addr, agg in fa:
+                if not any(addr in subterms(t) for t in alts):
+                    continue
+                prev = field_of(agg, 'prev')
+                pv = prev
+                # Cell::new(x) / the cell's content
+                while isinstance(pv, tuple) and pv and pv[0] == 'agg' and len(pv) > 3 and len(pv[3]) == 1:
+                    pv = pv[3][0][1]
+                lv = e.lv
+                links_old_head = any(isinstance(t, tuple) and t and t[0] == 'load' and t[1] == lv for t in subterms(pv)) if isinstance(pv, tuple) else False
+                if links_old_head and not (pv[0] == 'phi'):
+                    ctx.ok(rule, '%s: the chunk installed as head links the head it replaces as prev (via %s)' % (fn, entry), 'prev operand of the footer aggregate is the load of current_chunk_footer')
+                elif links_old_head and pv[0] == 'phi' and all(isinstance(x, tuple) and x and x[0] == 'load' and x[1] == lv for _, x in pv[2]):
+                    ctx.ok(rule, '%s: the chunk installed as head links the head it replaces as prev (via %s)' % (fn, entry), 'every alternative of prev is the load of current_chunk_footer')
+                else:
+                    ctx.violation(rule, fn, 'head-not-linked-to-old-head', 'the chunk installed as current_chunk_footer has prev = %s, not (on every path) the head it replaces: chunks behind the old head would be cut out of the list while the arena still holds them' % show(prev)[:140], e.span)
 
 
 def check_fast_path_failure_atomicity(ctx, A):
